@@ -613,3 +613,316 @@ func init() {
 			return out
 		}})
 }
+
+// BOUNDSCALE — the truncation bound of the Gaussian sampler is compared with the scaled sample.
+//
+// `Bound` is given in the units of the output (a multiple of sigma); the rejection test has to be made on
+// `norm * sigma` (or on the integer built from it). `if norm <= bound` compares the unit normal with it: for the
+// default parameters (sigma 3.2, bound 19.2) the sampler then accepts |x| up to 19.2 sigma = 61.
+//
+// Rule: in the methods of GaussianSampler, for every comparison (relational operator, or Cmp/CmpAbs call) one side of
+// which is derived from the `Bound` field, the other side depends on a value derived from the `Sigma` field
+// (dependence through assignments, and through calls that take both values as receiver/arguments).
+func scanBoundScale(c *core.Ctx) []ob {
+	var out []ob
+	n := 0
+	c.FuncDecls(func(pk *packages.Package, file *ast.File, fd *ast.FuncDecl) {
+		if fd.Body == nil || fd.Recv == nil || !strings.Contains(core.RecvTypeName(fd), "GaussianSampler") || fileIsTestSupport(c.Program, fd.Pos()) {
+			return
+		}
+		info := pk.TypesInfo
+		fkey := core.FuncKey(pk, fd)
+		// dependence edges: obj -> objs it is computed from; seeds: .Bound / .Sigma selectors
+		deps := map[types.Object]map[types.Object]bool{}
+		fromBound := map[types.Object]bool{}
+		fromSigma := map[types.Object]bool{}
+		var recvObj0 types.Object
+		if len(fd.Recv.List) > 0 && len(fd.Recv.List[0].Names) > 0 {
+			recvObj0 = info.Defs[fd.Recv.List[0].Names[0]]
+		}
+		objsOf := func(e ast.Node) []types.Object {
+			var r []types.Object
+			ast.Inspect(e, func(x ast.Node) bool {
+				if id, ok := x.(*ast.Ident); ok {
+					// the sampler itself is not a value: its fields are the seeds
+					if v, ok := info.Uses[id].(*types.Var); ok && !v.IsField() && types.Object(v) != recvObj0 {
+						r = append(r, v)
+					}
+				}
+				return true
+			})
+			return r
+		}
+		mentionsField := func(e ast.Node, f string) bool {
+			found := false
+			ast.Inspect(e, func(x ast.Node) bool {
+				if se, ok := x.(*ast.SelectorExpr); ok && se.Sel.Name == f {
+					found = true
+				}
+				return !found
+			})
+			return found
+		}
+		addDep := func(dst types.Object, src ast.Node) {
+			if deps[dst] == nil {
+				deps[dst] = map[types.Object]bool{}
+			}
+			for _, o := range objsOf(src) {
+				deps[dst][o] = true
+			}
+			if mentionsField(src, "Bound") {
+				fromBound[dst] = true
+			}
+			if mentionsField(src, "Sigma") {
+				fromSigma[dst] = true
+			}
+		}
+		ast.Inspect(fd.Body, func(x ast.Node) bool {
+			switch v := x.(type) {
+			case *ast.AssignStmt:
+				for i, l := range v.Lhs {
+					id := rootIdent(l)
+					if id == nil {
+						continue
+					}
+					o := info.Defs[id]
+					if o == nil {
+						o = info.Uses[id]
+					}
+					if o == nil {
+						continue
+					}
+					if len(v.Rhs) == len(v.Lhs) {
+						addDep(o, v.Rhs[i])
+					} else if len(v.Rhs) == 1 {
+						addDep(o, v.Rhs[0])
+					}
+				}
+			case *ast.CallExpr:
+				// x.M(a, b): x and every pointer-like argument depend on all operands of the call (read-only methods excepted)
+				if se, ok := unparen(v.Fun).(*ast.SelectorExpr); ok {
+					switch se.Sel.Name {
+					case "Cmp", "CmpAbs", "Sign", "BitLen", "Uint64", "Int64", "IsInt64", "IsUint64", "String", "Float64", "Text":
+						return true
+					}
+				}
+				var ptrs []types.Object
+				var all []ast.Node
+				if se, ok := unparen(v.Fun).(*ast.SelectorExpr); ok {
+					all = append(all, se.X)
+					if id := rootIdent(se.X); id != nil {
+						if o, ok := info.Uses[id].(*types.Var); ok && !o.IsField() && types.Object(o) != recvObj0 {
+							ptrs = append(ptrs, o)
+						}
+					}
+				}
+				for _, a := range v.Args {
+					all = append(all, a)
+					if id, ok := unparen(a).(*ast.Ident); ok {
+						if o, ok := info.Uses[id].(*types.Var); ok && pointerLike(o.Type()) {
+							ptrs = append(ptrs, o)
+						}
+					}
+				}
+				for _, p := range ptrs {
+					for _, a := range all {
+						addDep(p, a)
+					}
+				}
+			}
+			return true
+		})
+		var reach func(o types.Object, set map[types.Object]bool, seen map[types.Object]bool) bool
+		reach = func(o types.Object, set map[types.Object]bool, seen map[types.Object]bool) bool {
+			if set[o] {
+				return true
+			}
+			if seen[o] {
+				return false
+			}
+			seen[o] = true
+			for d := range deps[o] {
+				if reach(d, set, seen) {
+					return true
+				}
+			}
+			return false
+		}
+		sideIs := func(e ast.Expr, set map[types.Object]bool, field string) bool {
+			if mentionsField(e, field) {
+				return true
+			}
+			for _, o := range objsOf(e) {
+				if reach(o, set, map[types.Object]bool{}) {
+					return true
+				}
+			}
+			return false
+		}
+		check := func(at ast.Node, a, b ast.Expr) {
+			var other ast.Expr
+			switch {
+			case sideIs(a, fromBound, "Bound") && !sideIs(a, fromSigma, "Sigma"):
+				other = b
+			case sideIs(b, fromBound, "Bound") && !sideIs(b, fromSigma, "Sigma"):
+				other = a
+			default:
+				return
+			}
+			// constants (bound > 0xffff…) are range tests on the bound itself
+			if tv, ok := info.Types[other]; ok && tv.Value != nil {
+				return
+			}
+			n++
+			key := fmt.Sprintf("BOUNDSCALE:%s#%s", fkey, exprString(at.(ast.Expr)))
+			if sideIs(other, fromSigma, "Sigma") {
+				out = append(out, okOb("BOUNDSCALE", key, c.Rel(at.Pos()), "the value compared with the bound depends on sigma", true))
+			} else {
+				out = append(out, violOb("BOUNDSCALE", key, c.Rel(at.Pos()), fmt.Sprintf("%s compares %s with the truncation bound although it does not depend on sigma: the bound is in units of the scaled sample, the unit normal passes it for every |x| up to bound (not bound/sigma)", fkey, exprString(other))))
+			}
+		}
+		ast.Inspect(fd.Body, func(x ast.Node) bool {
+			switch v := x.(type) {
+			case *ast.BinaryExpr:
+				switch v.Op {
+				case token.LSS, token.LEQ, token.GTR, token.GEQ:
+					check(v, v.X, v.Y)
+				}
+			case *ast.CallExpr:
+				if se, ok := unparen(v.Fun).(*ast.SelectorExpr); ok && (se.Sel.Name == "Cmp" || se.Sel.Name == "CmpAbs") && len(v.Args) == 1 {
+					check(v, se.X, v.Args[0])
+				}
+			}
+			return true
+		})
+	})
+	c.Stats["boundscale_sites"] = n
+	return out
+}
+
+func init() {
+	core.Register(&core.Rule{Name: "BOUNDSCALE", Props: []string{"C17", "C03"},
+		Doc: "in the methods of GaussianSampler, a comparison one side of which derives from the Bound field has its other side depending on a value derived from the Sigma field",
+		Run: func(c *core.Ctx) []ob {
+			out := scanBoundScale(c)
+			out = append(out, control(c, "BOUNDSCALE", scanBoundScale, "(GaussianSamplerFix).draw")...)
+			out = append(out, core.Floor("BOUNDSCALE", nil, "comparisons with the truncation bound", c.Stats["boundscale_sites"], 1)...)
+			return out
+		}})
+}
+
+// SIZEDEP — the size of the auxiliary tensoring basis accounts for the ring degree.
+//
+// The BFV-style tensoring computes a product of two polynomials of N coefficients below Q/2 over the integers: its
+// coefficients reach N·Q²/4, so the auxiliary basis QMul must have about log2(Q) + log2(N) bits. The two places that
+// size it (`nbQiMul` in bgv.NewParameters, `levelQMul[i]` in newEvaluatorPrecomp) add `LogN()` to the bit length of Q;
+// dropped, the product wraps modulo Q·QMul for large N (the tests run at LogN = 10..13 with slack).
+//
+// Frozen table (function, variable, quantity): every assignment to the variable has a right-hand side that depends on
+// the quantity — mentioned directly, or through locals whose every definition mentions it.
+var sizeDepTable = []struct{ fn, variable, quantity, why string }{
+	{"schemes/bgv.NewParameters", "nbQiMul", "LogN", "the tensoring product over the integers has log2(N) more bits than Q^2"},
+	{"schemes/bgv.newEvaluatorPrecomp", "levelQMul", "LogN", "the number of auxiliary primes needed at a level grows with log2(N)"},
+}
+
+func scanSizeDep(c *core.Ctx) []ob {
+	var out []ob
+	n := 0
+	c.FuncDecls(func(pk *packages.Package, file *ast.File, fd *ast.FuncDecl) {
+		if fd.Body == nil {
+			return
+		}
+		fkey := core.FuncKey(pk, fd)
+		for _, e := range sizeDepTable {
+			if e.fn != fkey && !(c.IsFixture && strings.HasSuffix(fkey, "auxBasisSize") && e.variable == "nbQiMul") {
+				continue
+			}
+			info := pk.TypesInfo
+			defs := map[types.Object][]ast.Expr{}
+			ast.Inspect(fd.Body, func(x ast.Node) bool {
+				if as, ok := x.(*ast.AssignStmt); ok && len(as.Lhs) == len(as.Rhs) {
+					for i, l := range as.Lhs {
+						if id := rootIdent(l); id != nil {
+							o := info.Defs[id]
+							if o == nil {
+								o = info.Uses[id]
+							}
+							if o != nil {
+								defs[o] = append(defs[o], as.Rhs[i])
+							}
+						}
+					}
+				}
+				return true
+			})
+			var depends func(x ast.Node, depth int) bool
+			depends = func(x ast.Node, depth int) bool {
+				if strings.Contains(exprString(x.(ast.Expr)), e.quantity) {
+					return true
+				}
+				if depth > 4 {
+					return false
+				}
+				found := false
+				ast.Inspect(x, func(y ast.Node) bool {
+					if id, ok := y.(*ast.Ident); ok && !found {
+						if ds := defs[info.Uses[id]]; len(ds) > 0 {
+							all := true
+							for _, d := range ds {
+								if !depends(d, depth+1) {
+									all = false
+								}
+							}
+							if all {
+								found = true
+							}
+						}
+					}
+					return !found
+				})
+				return found
+			}
+			var target types.Object
+			for o := range defs {
+				if o.Name() == e.variable {
+					target = o
+				}
+			}
+			n++
+			key := fmt.Sprintf("SIZEDEP:%s#%s", fkey, e.variable)
+			if target == nil {
+				out = append(out, infoOb("SIZEDEP", key, c.Rel(fd.Pos()), "the variable is no longer assigned under this name: not decided"))
+				continue
+			}
+			bad := ast.Expr(nil)
+			for _, d := range defs[target] {
+				// the allocation `make([]int, n)` of a table is not a size computation
+				if call, ok := unparen(d).(*ast.CallExpr); ok {
+					if id, ok := unparen(call.Fun).(*ast.Ident); ok && id.Name == "make" {
+						continue
+					}
+				}
+				if !depends(d, 0) {
+					bad = d
+				}
+			}
+			if bad != nil {
+				out = append(out, violOb("SIZEDEP", key, c.Rel(bad.Pos()), fmt.Sprintf("%s computes %s as %s, which does not depend on %s: %s", fkey, e.variable, exprString(bad), e.quantity, e.why)))
+			} else {
+				out = append(out, okOb("SIZEDEP", key, c.Rel(fd.Pos()), "every definition of the size depends on "+e.quantity, true))
+			}
+		}
+	})
+	c.Stats["sizedep_sites"] = n
+	return out
+}
+
+func init() {
+	core.Register(&core.Rule{Name: "SIZEDEP", Props: []string{"C19", "C05"},
+		Doc: "in the two places that size the BFV auxiliary multiplication basis (frozen table), every assignment of the size depends on LogN (directly or through locals all of whose definitions do)",
+		Run: func(c *core.Ctx) []ob {
+			out := scanSizeDep(c)
+			out = append(out, control(c, "SIZEDEP", scanSizeDep, "lvfixture.auxBasisSize")...)
+			return out
+		}})
+}
